@@ -89,6 +89,13 @@ func (k *KafkaConsumer) VerifCheckConfig(config map[string]string) error {
 	return k.checkConfig(config)
 }
 
+// VerifDetachMain closes the client a real Setup created and substitutes the given one, keeping everything else
+// (contexts, recovery consumer, metrics) as Setup made it.
+func (k *KafkaConsumer) VerifDetachMain(c kafkainterface.MessageConsumer) {
+	_ = k.consumer.Close()
+	k.consumer = c
+}
+
 // VerifRecoveryConsumer returns the recovery consumer created by Setup (nil if disabled).
 func (k *KafkaConsumer) VerifRecoveryConsumer() *RecoveryConsumer { return k.recoveryConsumer }
 
